@@ -1,5 +1,6 @@
 """C20 -- profiling is transparent and reports true sizes: log nodes are pure wrappers in both
-back-ends (R1), the generator measures the right relation version (R2)."""
+back-ends (R1), the generator measures the right relation version (R2), loaded tuples are counted (R3), the reader files every tuple count
+under a key private to its event (R4)."""
 from engine import facts, tables, mutate
 from engine.facts import kids, walk, strip, is_call, call_args, call_obj, expr_key
 from engine.report import Report
@@ -88,6 +89,10 @@ MUTANTS = [
     ('synth-debuginfo-drops-child', 'src/synthesiser/Synthesiser.cpp', '''            // insert statements of the rule
             dispatch(dbg.getStatement(), out);''', '''            // insert statements of the rule
             if (!glb.config().has("profile")) dispatch(dbg.getStatement(), out);''', 'R1'),
+    ('rule-count-filed-under-iteration-key', 'src/include/souffle/profile/EventProcessor.h', '''        db.addSizeEntry({"program", "relation", relation, "iteration", iteration, "recursive-rule", rule,
+                                version, "num-tuples"},
+                number);''', '''        db.addSizeEntry({"program", "relation", relation, "iteration", iteration, "num-tuples"},
+                number);''', 'R4'),
 ]
 
 
@@ -116,17 +121,173 @@ def rule_loaded_tuples_counted(rep, sh):
     rep.floor('R3-relation-timer-paths', n, 1)
 
 
+# ---- R4: the profile reader files every measured size under a key no other event can write ------------------------------------------
+
+# the schema key under which the profile keeps a number of tuples (what souffleprof's Reader reads as the size of a relation / rule /
+# iteration).  Entries with other leaves (maxRSS, reads, level, usage) are resource figures, not the sizes the property speaks about: the
+# unchanged tree files maxRSS/pre of '@t-recursive-relation' and '@c-recursive-relation' under one key, which loses a memory figure only.
+SIZE_LEAF = 'num-tuples'
+
+
+class _Unk(Exception):
+    pass
+
+
+def _peel(n):
+    while n is not None:
+        m = strip(n, casts=True)
+        if m['k'] in ('CXXConstructExpr', 'CXXTemporaryObjectExpr', 'CXXFunctionalCastExpr', 'CXXStdInitializerListExpr') and \
+                len([c for c in kids(m) if c['k'] != 'CXXDefaultArgExpr']) == 1:
+            m = [c for c in kids(m) if c['k'] != 'CXXDefaultArgExpr'][0]
+        if m is n:
+            return n
+        n = m
+    return n
+
+
+def _comp(e):
+    e = _peel(e)
+    if e['k'] == 'StringLiteral':
+        return ('lit', e.get('str', ''))
+    if e['k'] == 'DeclRefExpr':
+        return ('var', e.get('name', '?'))
+    if is_call(e, 'to_string') and len(call_args(e)) == 1:
+        return ('var', expr_key(call_args(e)[0]))
+    return ('var', expr_key(e))
+
+
+def _path_val(n, f, env, depth=0):
+    """abstract value of an expression of type vector<string>: a list of ('lit', s) / ('var', name) components.  Understands brace lists,
+    const local vectors, and local lambdas that concatenate (p.insert(p.end(), q.begin(), q.end()); return p).  Anything else: _Unk."""
+    if depth > 6:
+        raise _Unk('nesting')
+    n = _peel(n)
+    if n['k'] == 'InitListExpr':
+        return [_comp(e) for e in kids(n)]
+    if n['k'] == 'DeclRefExpr':
+        did = n.get('did')
+        if did in env:
+            return list(env[did])
+        decl = [m for m in f.walk() if m['k'] == 'VarDecl' and m.get('did') == did]
+        if len(decl) != 1 or not kids(decl[0]) or not decl[0].get('t', '').startswith('const '):
+            raise _Unk('%s is not a const local with an initialiser' % n.get('name'))
+        return _path_val(kids(decl[0])[0], f, env, depth + 1)
+    if n['k'] == 'CXXOperatorCallExpr' and len(kids(n)) >= 2:
+        obj = _peel(kids(n)[1])
+        lam = None
+        if obj['k'] == 'DeclRefExpr':
+            decl = [m for m in f.walk() if m['k'] == 'VarDecl' and m.get('did') == obj.get('did')]
+            if len(decl) == 1 and kids(decl[0]):
+                lam = _peel(kids(decl[0])[0])
+        if lam is None or lam['k'] != 'LambdaExpr' or lam.get('captures'):
+            raise _Unk('call of something that is not a capture-free local lambda')
+        args = kids(n)[2:]
+        ps = lam.get('params', [])
+        if len(ps) != len(args):
+            raise _Unk('lambda arity')
+        env2 = {p['did']: _path_val(a, f, env, depth + 1) for p, a in zip(ps, args)}
+        body = [c for c in kids(lam) if c['k'] == 'CompoundStmt']
+        if len(body) != 1:
+            raise _Unk('lambda body')
+        for st in kids(body[0]):
+            st0 = _peel(st) if st['k'] != 'ReturnStmt' else st
+            if st0['k'] == 'ReturnStmt':
+                return _path_val(kids(st0)[0], f, env2, depth + 1)
+            if is_call(st0, 'insert') and len(call_args(st0)) == 3:
+                tgt = _peel(call_obj(st0))
+                a0, a1, a2 = [_peel(a) for a in call_args(st0)]
+                def of(c, nm):
+                    c = _peel(c)
+                    return _peel(call_obj(c)) if is_call(c, nm) and call_obj(c) is not None else None
+                e0, b1, e2 = of(a0, 'end'), of(a1, 'begin'), of(a2, 'end')
+                if tgt['k'] == 'DeclRefExpr' and tgt.get('did') in env2 and e0 is not None and e0.get('did') == tgt.get('did') and \
+                        b1 is not None and e2 is not None and b1.get('did') == e2.get('did') and b1.get('did') in env2:
+                    env2[tgt['did']] = env2[tgt['did']] + env2[b1['did']]
+                    continue
+            raise _Unk('lambda statement %s is not the append idiom' % st0['k'])
+        raise _Unk('lambda without return')
+    raise _Unk('expression kind %s' % n['k'])
+
+
+def _unifiable(a, b):
+    return len(a) == len(b) and all(x[0] == 'var' or y[0] == 'var' or x[1] == y[1] for x, y in zip(a, b))
+
+
+def _fmt(pth):
+    return '/'.join(c[1] if c[0] == 'lit' else '<%s>' % c[1] for c in pth)
+
+
+def rule_size_keys_private(rep, ep):
+    """R4: ProfileDatabase entries are first-write-wins (DirectoryEntry::writeEntry keeps an existing key), so a size the program measured
+    reaches the profile only if no other event can file a size under the same key.  Every addSizeEntry path of every event processor is
+    evaluated to a key shape (literals and variables; only tuple counts, leaf 'num-tuples', are compared); shapes written for DIFFERENT events (the '@t-x' / '@n-x' processors of one event x are
+    alternatives and count as one) must not be unifiable, and one processor must not write two sizes under one shape."""
+    procs = {}
+    for f in ep.funcs(name='process'):
+        cls = f.d.get('cls')
+        if cls and cls != 'EventProcessor':
+            procs[cls] = f
+    events = {}
+    for f in ep.functions:
+        if f.d.get('ctor') and f.d.get('cls') in procs:
+            for m in f.walk():
+                if is_call(m, 'registerEventProcessor'):
+                    a = _peel(call_args(m)[0])
+                    if a['k'] == 'StringLiteral':
+                        events[f.d['cls']] = a.get('str', '')
+    sites = []
+    for cls, f in sorted(procs.items()):
+        ev = events.get(cls)
+        calls = [m for m in f.walk() if is_call(m, 'addSizeEntry', 'ProfileDatabase')]
+        if calls and ev is None:
+            rep.analysis_broken('event name of %s not found' % cls)
+            continue
+        group = ev[3:] if ev and ev[:3] in ('@t-', '@n-') else ev
+        for i, c in enumerate(calls):
+            try:
+                pth = _path_val(call_args(c)[0], f, {})
+            except _Unk as e:
+                rep.analysis_broken('key of size entry #%d in %s::process cannot be evaluated (%s)' % (i, cls, e))
+                continue
+            if pth and pth[-1] == ('lit', SIZE_LEAF):
+                sites.append((cls, group, i, pth, f.loc(c)))
+    for cls in sorted({s[0] for s in sites}):
+        mine = [s for s in sites if s[0] == cls]
+        bad = []
+        for s in mine:
+            for o in sites:
+                if o is s or (o[0] == cls and o[2] >= s[2] and o[0] == s[0] and o[2] == s[2]):
+                    continue
+                if o[0] == cls:
+                    clash = o[3] == s[3] and o[2] < s[2]
+                else:
+                    clash = o[1] != s[1] and _unifiable(o[3], s[3])
+                if clash:
+                    bad.append((s, o))
+        ok = not bad
+        det = ''
+        if bad:
+            s, o = bad[0]
+            det = ('the size filed by %s under %s can be filed under the same key by %s (%s, %s): the database keeps the first write, the other '
+                   'measurement is lost' % (cls, _fmt(s[3]), o[0], _fmt(o[3]), o[4]))
+        rep.ob('R4-size-keys-private-to-their-event', cls, ok, bad[0][0][4] if bad else procs[cls].where, det)
+    rep.floor('R4-size-entry-sites', len(sites), 10)
+    rep.floor('R4-size-writing-processors', len({s[0] for s in sites}), 9)
+
+
 def analyse(rep):
-    eng, syn, lg = facts.extract([
+    eng, syn, lg, ep = facts.extract([
         ('src/interpreter/Engine.cpp', r'interpreter/Engine\.cpp$', r'Engine::execute$', None, r'ram::(LogRelationTimer|LogTimer|DebugInfo|LogSize) &'),
         ('src/synthesiser/Synthesiser.cpp', r'synthesiser/Synthesiser\.cpp$', r'CodeEmitter::visit_'),
-        ('src/interpreter/Engine.cpp', r'souffle/profile/Logger\.h$', r'Logger')])
-    rep.add_units([eng, syn, lg])
+        ('src/interpreter/Engine.cpp', r'souffle/profile/Logger\.h$', r'Logger'),
+        ('src/interpreter/Engine.cpp', r'souffle/profile/EventProcessor\.h$', r'Processor')])
+    rep.add_units([eng, syn, lg, ep])
     rule_wrappers(rep, eng, syn)
     rule_logger_delta(rep, lg)
     sh = S.Shapes(rep)
     S.rule_profile_roles(rep, sh)
     rule_loaded_tuples_counted(rep, sh)
+    rule_size_keys_private(rep, ep)
 
 
 def run(tier='quick'):
@@ -134,12 +295,13 @@ def run(tier='quick'):
     rep.explanation = ('static analysis of the profiling path: the RAM log nodes (LogRelationTimer, LogTimer, DebugInfo, LogSize) are pure wrappers in '
                        'the interpreter (child executed exactly once, status returned unchanged) and in the synthesiser (child emitted exactly once, '
                        'unconditionally, inside the logger scope); the generator attaches non-recursive timers / LogSize to role Main and the '
-                       'per-iteration timers to role New (the head version); Logger reports size() - preSize.')
+                       'per-iteration timers to role New (the head version); Logger reports size() - preSize; the profile reader files every tuple count under a '
+                       'key that no other event can write (the database keeps the first write).')
     rep.assumptions = ['that the sum of the reported quantities equals the final cardinality is NOT decided (EventProcessor arithmetic on run-time events)']
     try:
         analyse(rep)
         ms = [mutate.Mutant(n, f, o, w, e) for (n, f, o, w, e) in MUTANTS]
-        mutate.run_mutants(rep, 'C20', ms if tier == 'thorough' else ms[1:3], analyse)
+        mutate.run_mutants(rep, 'C20', ms if tier == 'thorough' else ms[1:4], analyse)
     except facts.Broken as e:
         rep.analysis_broken(str(e))
     return rep.finish()
